@@ -407,7 +407,7 @@ def short_scope(depth):
 
 
 def gen_random(rng, length, nkeys, lvl=2, wb=False):
-    """structured random history over the three containers; the generator tracks upper bounds of the
+    """structured random history over the four containers; the generator tracks upper bounds of the
     sizes only (a position may still be out of range: both sides must then say bad-op)"""
     lo = rng.choice([-3, 0, 0, 1])
     h = [f"dom {lo - 1} {lo + nkeys}", f"obs {lvl}"]
